@@ -123,6 +123,11 @@ func zzSteps() int                 { return 0 }
 func zzSetBudget(steps, bytes int) {}
 func zzOrderMode(mode string)      {}
 
+// zzNewProcess: the engine re-initialises the package-level variables with
+// the given map iteration order (another process); natively a no-op — the
+// native demonstration really runs several processes.
+func zzNewProcess(mode string) {}
+
 // zzRopeW is the writer handed to Dump: the engine records formatted output
 // symbolically, natively it is a byte buffer.
 type zzRopeW struct{ b []byte }
